@@ -17,7 +17,7 @@ LEVEL_TEXT = ('Bounded symbolic verification through the real Flask view functio
               'the request with symbolic field values (+ LOCAL_PREF 100 iff remote AS = local AS, both symbolic).')
 LEVEL_NOTE = ('Werkzeug header / JSON parsing, TLS and the WSGI thread hand-off are stubbed at get_auth / get_json / jsonify '
               '(vf/env/rest.py) and outside the claim; callFromThread runs inline.')
-LEVEL_ADDED = 'Also: LOCAL_PREF symbolic (including 0 on iBGP); authentication obligations in Idle as well at the quick tier; OPTIONS where a rule lists it explicitly.'
+LEVEL_ADDED = 'Also: LOCAL_PREF symbolic (including 0 on iBGP); authentication obligations in Idle as well at the quick tier; OPTIONS where a rule lists it explicitly. Extended communities (route targets with symbolic administrator, colour) in the faithful-send obligations.'
 TECHNIQUE = 'symbolic execution of the Flask views with symbolic credentials and request fields (CrossHair+z3) on the session world; independent RFC encoder as oracle for the bytes sent'
 EXPLANATION = 'C16: auth, state gate, faithful send through the real view functions.'
 BOUNDS = 'credentials: symbolic strings up to 6 characters; all 11 rules x methods; 5 session states; send shapes: IPv4 unicast with 4 attributes, withdraw, VPNv4 MP_REACH, route refresh, raw binary'
